@@ -81,6 +81,11 @@ def cases_corrupt(tier):
     for t in B.NONJSON:
         for w in ws:
             yield (w, t)
+    # texts holding code points no encoder accepts (raw lone surrogates), alone and inside an otherwise valid request
+    for t in ("\ud800", "\udfff\ud800", '"\udc00"', '{"jsonrpc":"2.0","method":"echo","params":["\ud83d"],"id":1}',
+              '{"jsonrpc":"2.0","method":"f","id":"\udc00"}', '[{"jsonrpc":"2.0","method":"\ud800","id":1}]', '{"jsonrpc":"2.0","method":"f","params":{"\udfff":1}}'):
+        for w in ws:
+            yield (w, t)
 
 
 # -- __jsonclass__ descriptors (translation on) ---------------------------------
